@@ -74,6 +74,16 @@ def strip_comments(s):
     return "".join(out)
 
 
+LEAN_RESERVED = {"attribute", "end", "open", "at", "from", "have", "show", "do", "then", "else", "if", "in", "fun",
+                 "let", "match", "with", "where", "instance", "class", "structure", "def", "theorem", "axiom",
+                 "none", "some", "export", "import", "section", "variable", "universe", "macro", "syntax", "by"}
+
+
+def ln(name):
+    """a C++ identifier as a Lean identifier"""
+    return name + "_" if name in LEAN_RESERVED else name
+
+
 def lean_str(s):
     return '"' + s.replace("\\", "\\\\").replace('"', '\\"') + '"'
 
@@ -224,11 +234,23 @@ def gen():
     ml = re.search(r"PRETTIER_MAX_LINE_WIDTH\s*=\s*(\d+)\s*;", hsrc)
     if not mv or not ml:
         raise TranslateError("PRETTIER_MAX_* constants not found")
-    # sizeof: does the parser take the parentheses out of the operand?
-    m = re.search(r"else if \(opType & operatorType::sizeof_\) \{(.*?)\n      \}", psrc, re.S)
+    # sizeofNode::print: always `sizeof(` value `)`, or the operand as it was written
+    zsrc = strip_comments(read(LANG + "/expr/sizeofNode.cpp"))
+    m = re.search(r"void\s+sizeofNode::print\(printer\s*&pout\)\s*const\s*\{(.*?)\n    \}", zsrc, re.S)
     if not m:
-        raise TranslateError("applyLeftUnaryOperator: sizeof_ branch not found")
-    sizeof_strips = bool(re.search(r"exprNodeType::parentheses", m.group(1)))
+        raise TranslateError("sizeofNode::print not found")
+    zbody = re.sub(r"\s+", " ", m.group(1)).strip()
+    if zbody == "pout << \"sizeof(\" << *value << ')';":
+        sizeof_as_written = False
+    elif re.fullmatch(r"if \(value->type\(\) & exprNodeType::parentheses\) \{ pout << \"sizeof\" << \*value; \} "
+                      r"else if \(value->type\(\) & \(exprNodeType::type \| exprNodeType::vartype\)\) \{ pout << \"sizeof\(\" << \*value << '\)'; \} "
+                      r"else \{ pout << \"sizeof \" << \*value; \}", zbody):
+        sizeof_as_written = True
+    else:
+        raise TranslateError("sizeofNode::print has an unknown shape: " + zbody[:120])
+    m = re.search(r"else if \(opType & operatorType::sizeof_\) \{(.*?)\n      \}", psrc, re.S)
+    if not m or re.sub(r"\s+", "", strip_comments(m.group(1))) != "state.pushOutput(newsizeofNode(&opToken,value));":
+        raise TranslateError("applyLeftUnaryOperator: the sizeof_ branch changed")
     # operatorIsLeftUnary variants
     m = re.search(r"bool\s+expressionParser::operatorIsLeftUnary\(.*?\)\s*\{(.*?)\n    \}", psrc, re.S)
     if not m:
@@ -240,6 +262,9 @@ def gen():
         operand_then_unary_is_binary = True
     else:
         raise TranslateError("operatorIsLeftUnary: the prevTokenIsOp != nextTokenIsOp branch changed")
+    cast_end_prefix = bool(re.search(r"state\.prevToken\s*==\s*state\.castEndToken", ilu))
+    if cast_end_prefix != bool(re.search(r"state\.pushPair\(state\.prevToken\s*==\s*state\.castEndToken\s*\?\s*NULL\s*:\s*state\.prevToken\)", strip_comments(psrc))):
+        raise TranslateError("castEndToken is used in operatorIsLeftUnary but not in pushPair (or the reverse)")
     pairend_ends_operand = bool(re.search(r"nextToken->getOpType\(\)\s*&\s*operatorType::pairEnd", ilu))
     m = re.search(r"void\s+expressionParser::applyFasterOperators\(.*?\)\s*\{(.*?)\n    \}", psrc, re.S)
     if not m:
@@ -247,6 +272,7 @@ def gen():
     afo = strip_comments(m.group(1))
     ternary_right = bool(re.search(r"isColon", afo))
     if ternary_right and not (re.search(r"isQuestionMark\s*&&\s*\(prevOp\.precedence\s*==\s*op\.precedence\)", afo)
+                              and re.search(r"!isColon\s*&&\s*\(prevOp\.opType\s*&\s*operatorType::questionMark\)", afo)
                               and re.search(r"closesTernary", afo)):
         raise TranslateError("applyFasterOperators: ternary handling has an unknown shape")
     if not re.search(r"\(op\.precedence\s*>\s*prevOp\.precedence\)\s*\|\|\s*\(\(op\.precedence\s*==\s*prevOp\.precedence\)\s*&&"
@@ -277,29 +303,29 @@ def gen():
          "namespace Occa.Gen", "",
          "/-- every operator of `namespace op` in lang/operator.cpp, in source order -/",
          "inductive Op where"]
-    L += ["  | %s" % n for n in names]
+    L += ["  | %s" % ln(n) for n in names]
     L += ["  deriving DecidableEq, Repr, Inhabited", "",
-          "def Op.all : List Op := [%s]" % ", ".join("." + n for n in names), "",
+          "def Op.all : List Op := [%s]" % ", ".join("." + ln(n) for n in names), "",
           "/-- spelling (`operator_t::str`) -/", "def Op.str : Op → String"]
-    L += ["  | .%s => %s" % (o["name"], lean_str(o["str"])) for o in ops]
+    L += ["  | .%s => %s" % (ln(o["name"]), lean_str(o["str"])) for o in ops]
     L += ["", "/-- `operator_t::precedence` (0 for pair operators) -/", "def Op.prec : Op → Nat"]
-    L += ["  | .%s => %d" % (o["name"], o["prec"]) for o in ops]
+    L += ["  | .%s => %d" % (ln(o["name"]), o["prec"]) for o in ops]
     L += ["", "/-- `operator_t::opType` as the two words (b1, b2) of `bitfield` -/", "def Op.ty : Op → Nat × Nat"]
-    L += ["  | .%s => %s" % (o["name"], ty(o["ty"])) for o in ops]
+    L += ["  | .%s => %s" % (ln(o["name"]), ty(o["ty"])) for o in ops]
     L += ["", "/-- `pairOperator_t::pairStr` (empty for the others) -/", "def Op.pairStr : Op → String"]
-    L += ["  | .%s => %s" % (o["name"], lean_str(o["pair"])) for o in ops]
+    L += ["  | .%s => %s" % (ln(o["name"]), lean_str(o["pair"])) for o in ops]
     L += ["", "/-- name as written in the source (for dumps) -/", "def Op.name : Op → String"]
-    L += ["  | .%s => %s" % (n, lean_str(n)) for n in names]
+    L += ["  | .%s => %s" % (ln(n), lean_str(n)) for n in names]
     L += ["", "/-! operatorType constants (atoms and composites) as (b1, b2) -/", "namespace T"]
-    L += ["def %s : Nat × Nat := %s" % (n if n not in ("none",) else "none_", ty(n)) for n in order]
+    L += ["def %s : Nat × Nat := %s" % (ln(n), ty(n)) for n in order]
     L += ["end T", "",
           "/-- `op::associativity[19]`: 0 = leftAssociative, 1 = rightAssociative -/",
           "def assoc : List Nat := [%s]" % ", ".join(str(a) for a in assoc), "",
           "/-- spellings registered in the tokenizer's operator trie by getOperators(), in order -/",
-          "def registered : List Op := [%s]" % ", ".join("." + n for n in reg), "",
+          "def registered : List Op := [%s]" % ", ".join("." + ln(n) for n in reg), "",
           "/-- updateOperatorToken(): (composite tested, operator when left unary, operator otherwise), in order -/",
           "def ambiguousTable : List ((Nat × Nat) × Op × Op) := [%s]" %
-          ", ".join("(%s, .%s, .%s)" % (ty(c), l, r) for c, l, r in amb), "",
+          ", ".join("(%s, .%s, .%s)" % (ty(c), ln(l), ln(r)) for c, l, r in amb), "",
           "/-- binaryOpNode::print: operators printed as `left op right` without blanks -/",
           "def tightBinary : Nat × Nat := (%d, %d)" % (tb1, tb2), "",
           "/-- leftUnaryOpNode::print: a blank separates the operator from a following prefix operator when the",
@@ -307,12 +333,14 @@ def gen():
           "def unarySeparatorChars : List Char := [%s]" % ", ".join("'%s'" % c for c in clash), "",
           "def prettierMaxVarWidth : Nat := %s" % mv.group(1),
           "def prettierMaxLineWidth : Nat := %s" % ml.group(1), "",
-          "/-- applyLeftUnaryOperator: sizeof takes the parentheses out of its operand -/",
-          "def sizeofStripsParentheses : Bool := %s" % ("true" if sizeof_strips else "false"),
+          "/-- sizeofNode::print writes the operand as it was parsed (`sizeof(x)`, `sizeof x`) instead of always adding ( ) -/",
+          "def sizeofPrintsAsWritten : Bool := %s" % ("true" if sizeof_as_written else "false"),
           "/-- operatorIsLeftUnary: `+ - * & ::` after an operand are binary whatever follows -/",
           "def operandThenUnaryIsBinary : Bool := %s" % ("true" if operand_then_unary_is_binary else "false"),
           "/-- operatorIsLeftUnary: a closing pair after the operator ends the operand -/",
           "def pairEndEndsOperand : Bool := %s" % ("true" if pairend_ends_operand else "false"),
+          "/-- the ) of a (type) cast counts as a prefix operator (operatorIsLeftUnary, pushPair) -/",
+          "def castEndIsPrefix : Bool := %s" % ("true" if cast_end_prefix else "false"),
           "/-- applyFasterOperators: `?` never pops level 16 and `:` closes the nearest `?` -/",
           "def ternaryNestsRight : Bool := %s" % ("true" if ternary_right else "false"),
           "/-- stringNode::print / charNode::print emit the encoding prefix and the suffix -/",
